@@ -1,10 +1,10 @@
 from props import Prop, Stream, reg
 
 reg(Prop('C07', [
-    Stream('c07.decode', 20000, 1000000, 'model', exhaustive='every opcode byte 0x00-0xff x 60 boundary operand tails x address size 1/2/4/8 x format x version 2/5 x endianity; odd address sizes 0/3/16/255'),
-    Stream('c07.ops', 5000, 300000, 'model', exhaustive='every opcode byte as the first operation of an expression'),
-    Stream('c07.value', 20000, 1000000, 'model', exhaustive='every Value operation x every pair of value types x boundary operands x address masks; shift counts 0..70'),
-    Stream('c07.eval', 20000, 1000000, 'model', exhaustive='every program of length <= 3 (thorough: <= 4) over the 41-letter alphabet of DESIGN C07, address sizes 1/2/4/8; with initial value / fixed-capacity storage: length <= 2'),
+    Stream('c07.decode', 20000, 1000000, 'model', shards=3, exhaustive='every opcode byte 0x00-0xff x 60 boundary operand tails x address size 1/2/4/8 x format x version 2/5 x endianity; odd address sizes 0/3/16/255'),
+    Stream('c07.ops', 5000, 300000, 'model', shards=3, exhaustive='every opcode byte as the first operation of an expression'),
+    Stream('c07.value', 20000, 1000000, 'model', shards=3, exhaustive='every Value operation x every pair of value types x boundary operands x address masks; shift counts 0..70'),
+    Stream('c07.eval', 20000, 1000000, 'model', shards=3, exhaustive='every program of length <= 3 (thorough: <= 4) over the 41-letter alphabet of DESIGN C07, address sizes 1/2/4/8; with initial value / fixed-capacity storage: length <= 2'),
 ], clauses=[], design_ref='§5 C07', level='proof (partial)',
     level_text='placeholder',
     level_note='',
